@@ -14,6 +14,7 @@ from __future__ import annotations
 
 import collections
 import os
+import time
 
 from . import tlaval, tlc
 from .c16_backends import (ABSENT, HEAD, DictBackend, DiskBackend, GitView, Objects, ReftableBackend, nm,
@@ -230,10 +231,11 @@ class Walker:
     this worker is responsible for covering."""
 
     def __init__(self, graph: Graph, kind: str, objs: Objects, scratch: str, use_git: bool, max_len: int,
-                 rng, check_every=1):
+                 rng, deadline=None):
         self.g, self.kind, self.objs, self.scratch = graph, kind, objs, scratch
         self.max_len, self.rng = max_len, rng
         self.use_git = use_git
+        self.deadline = deadline         # time.time() after which no new behaviour is started
         self.git = GitView(objs, scratch) if (use_git and kind == "disk") else None
         self.by_sig, self.nfindings, self.drift, self.ndrift = {}, 0, [], 0
         self.steps = self.behaviours = self.validated = 0
@@ -285,6 +287,8 @@ class Walker:
         remaining = set(targets)
         stuck = 0
         while remaining and stuck < 3:
+            if self.deadline is not None and time.time() > self.deadline:
+                break
             before = len(remaining)
             be = self.new_backend()
             self.behaviours += 1
